@@ -131,7 +131,7 @@ def main():
         engines.setdefault(v[0], []).append(pid)
     m = {
         "version": 1,
-        "setup_cmd": "cd /verif/sim && CARGO_NET_OFFLINE=true cargo build --release --offline --target-dir target && CARGO_NET_OFFLINE=true cargo build --release --offline --features logfeat --target-dir target-log",
+        "setup_cmd": "cd /verif/sim && CARGO_NET_OFFLINE=true cargo build --release --offline --target-dir target && CARGO_NET_OFFLINE=true cargo build --release --offline --features logfeat --target-dir target-log && CARGO_NET_OFFLINE=true cargo build --release --offline --no-default-features --target-dir target-std",
         "hooks": {
             "guard": "--cfg tokio_rs_tracing_verif (rustc cfg)",
             "enable": "RUSTFLAGS='--cfg tokio_rs_tracing_verif' via /verif/sim/.cargo/config.toml; the harness workspace /verif/sim has path dependencies on /repo/* and [patch]es portable-atomic, portable-atomic-util, parking_lot, crossbeam-channel with simulator shims",
@@ -142,7 +142,7 @@ def main():
         "engines": [{"name": k, "path": "/verif/sim/tsim", "serves_properties": sorted(v), "kind_free_text": "deterministic simulation with fault injection: real OS threads under a seeded baton scheduler (detsim), one fresh process per seed"} for k, v in sorted(engines.items())],
         "checks": checks,
         "not_applicable": na,
-        "notes": "Hooks are add-only lines or cfg-selected imports of a drop-in type (H1 RwLock, H7 AtomicUsize, H8 Instant: the code using them is the same source in both configurations); H6 extends the existing check-cfg line in /repo/Cargo.toml. Known findings and fixes: /verif/known_findings.json. Replay: ./check replay <file>.",
+        "notes": "For C05 C06 C07 C09 C11 C12 C13 C14 each command first runs a shorter pass of total-order runs with tracing-subscriber built with std's poisoning locks (its default configuration; build target-std), then the main run with the cooperative lock seam; a violation in either is reported. Hooks are add-only lines or cfg-selected imports of a drop-in type (H1 RwLock, H7 AtomicUsize, H8 Instant: the code using them is the same source in both configurations); H6 extends the existing check-cfg line in /repo/Cargo.toml. Known findings and fixes: /verif/known_findings.json. Replay: ./check replay <file>.",
     }
     json.dump(m, open("/verif/MANIFEST.json", "w"), indent=1)
     print("wrote MANIFEST.json:", len(checks), "checks,", len(na), "unclaimed")
